@@ -45,6 +45,9 @@ class Cmp(Part):
         runs.append(tlc.run("DominanceMarks", "CONSTANTS M = 2\nVals = {0, 1, 2}\nMarks <- MarksDef\nSPECIFICATION Spec\n"
                             "INVARIANT ScanIsDefinition\nINVARIANT ScanOpIsDefinition\nINVARIANT FlagsSound\nINVARIANT EpsAgrees\n"
                             "CHECK_DEADLOCK FALSE\n", ctx.scratch, workers=4, coverage=True, name="Dominance-mc-marks"))
+        # TLAPS side-car: the same laws for arbitrary index sets and integer costs (not the deciding mechanism)
+        self.proved = tlc.tlapm("proofs/DominanceLaws.tla", ctx.scratch)
+        ctx.notes.append("tlapm proofs/DominanceLaws.tla: %d obligations proved (irreflexive, antisymmetric, transitive, marker laws)" % self.proved)
         return runs
 
     def cases(self, ctx):
